@@ -82,6 +82,9 @@ def run(ctx):
         idx = [i for i, c in enumerate(cases) if c[1] == b]
         outs = vlib.run_lines(exes[b], [cases[i][0] for i in idx])
         for i, o in zip(idx, outs): impl[i] = o
+    for b in ('optim', 'debug'):
+        gi = [i for i, c in enumerate(cases) if c[1] == b and len(c[0]) < 30000][:: (5 if ctx.tier != 'thorough' else 2)]
+        vlib.guard_pass(ctx, exes[b], [cases[i][0] for i in gi], [impl[i] for i in gi], 'decompositions, %s build' % b, {'build': b})
     lines = sorted(set(c[0] for c in cases))
     mo = dict(zip(lines, vlib.run_model(lines)))
     # the 8-lane model must agree with the scalar model where the theorem says so
@@ -149,6 +152,7 @@ def run(ctx):
 def replay(ctx, data):
     b = data.get('build', 'optim')
     exe = vlib.build_harness('drv.cpp', vlib.build_lib(b), 'spqlios-fma', b)
+    if data.get('guard'): return vlib.guard_replay(exe, data)
     o = vlib.run_lines(exe, [data['case']])[0]
     print('case:', data['case'][:300], '\nimplementation now:', o[:600], '\nrecorded:', str(data.get('impl'))[:600])
     return 0
